@@ -8,7 +8,7 @@ use pairing_plus::bls12_381::verif::osswu_consts::{chain_p2m9div16, chain_pm3div
 use pairing_plus::bls12_381::{Bls12, Fq, Fq12, Fq2, Fr, G1Affine, G1Prepared, G2Affine, G2Prepared, G1, G2};
 use pairing_plus::hash_to_field::{hash_to_field, BaseFromRO, ExpandMsg, FromRO};
 use pairing_plus::serdes::SerDes;
-use pairing_plus::{CurveAffine, Engine};
+use pairing_plus::{CurveAffine, CurveProjective, Engine};
 use std::io::{self, Read, Write};
 use std::sync::Arc;
 
@@ -206,6 +206,46 @@ fn h2f<T: FromRO>(x: &str, msg: &[u8], dst: &[u8], count: usize, wrap: fn(T) -> 
     ok1(Val::List(v.into_iter().map(wrap).collect()))
 }
 
+/// Caller-defined point types for the generic parameters of Engine::pairing / pairing_product (G1: Into<G1Affine>,
+/// G2: Into<G2Affine>): the conversion is caller code running inside the library call. Mode 1 evaluates pairings of
+/// its own inside the conversion and checks them; mode 2 panics.
+pub struct ReG1(pub G1Affine, pub i64);
+pub struct ReG2(pub G2Affine, pub i64);
+
+fn nested_pairings(mode: i64) {
+    if mode == 2 {
+        panic!("injected conversion panic");
+    }
+    if mode == 1 {
+        let a = G1Affine::one();
+        let b = G2Affine::one();
+        let mut a2 = a.into_projective();
+        a2.double();
+        let e = Bls12::pairing(a, b);
+        let e2 = Bls12::pairing(a2.into_affine(), b);
+        let mut sq = e;
+        ff_zeroize::Field::square(&mut sq);
+        assert!(e2 == sq, "nested pairing: e(2P,Q) != e(P,Q)^2");
+        let mut na = a;
+        na.negate();
+        let one = Bls12::pairing_product(a, b, na, b);
+        assert!(one == <Fq12 as ff_zeroize::Field>::one(), "nested pairing_product: e(P,Q) e(-P,Q) != 1");
+    }
+}
+
+impl From<ReG1> for G1Affine {
+    fn from(r: ReG1) -> G1Affine {
+        nested_pairings(r.1);
+        r.0
+    }
+}
+impl From<ReG2> for G2Affine {
+    fn from(r: ReG2) -> G2Affine {
+        nested_pairings(r.1);
+        r.0
+    }
+}
+
 pub fn run(_m: &mut Machine, op: &str, args: &[Val]) -> R<Out> {
     let n = |i: usize| -> R<i64> { get_int(arg(args, i)?) };
     match op {
@@ -300,6 +340,19 @@ pub fn run(_m: &mut Machine, op: &str, args: &[Val]) -> R<Out> {
             Some(v) => Out::Ok(vec![Val::Fq12(v)]),
             None => Out::None,
         }),
+        "pairing_re" => {
+            let md = n(2)?;
+            ok1(Val::Fq12(Bls12::pairing(ReG1(get_g1a(arg(args, 0)?)?, md), ReG2(get_g2a(arg(args, 1)?)?, md))))
+        }
+        "pairing_product_re" => {
+            let md = n(4)?;
+            ok1(Val::Fq12(Bls12::pairing_product(
+                ReG1(get_g1a(arg(args, 0)?)?, md),
+                ReG2(get_g2a(arg(args, 1)?)?, if md == 2 { 0 } else { md }),
+                ReG1(get_g1a(arg(args, 2)?)?, 0),
+                ReG2(get_g2a(arg(args, 3)?)?, md),
+            )))
+        }
         "pairing_product" => ok1(Val::Fq12(Bls12::pairing_product(
             get_g1a(arg(args, 0)?)?,
             get_g2a(arg(args, 1)?)?,
